@@ -3,6 +3,7 @@ import Spec
 import Gen
 import Proofs.SM
 import Props.C09
+import Proofs.Client
 /-!
   C10 — no application handler runs before the capabilities exchange succeeds.
   `smStep` is one inbound message on a server-side connection whose handler is a state machine
@@ -296,6 +297,42 @@ theorem C13_dwa_fields (cfg : Settings) (req : Header) (hf : req.flags < 256) :
     by_cases hr : req.flags / 128 % 2 = 1 <;> simp [hr, isRequest] <;> omega
   · rw [h.2.2.2.2.2]; unfold answerHdr isRequest; simp only []
     by_cases hr : req.flags / 128 % 2 = 1 <;> simp [hr] <;> omega
+
+/-- Client side: the first CEA the connection handles decides whether the peer's metadata - the
+    gate for application handlers - is ever stored. In every reachable state of the handshake in
+    which a CEA has been handled, a further CEA changes nothing, whether it is dispatched
+    normally or comes out of the read buffer after the handshake has closed the transport (a
+    failing CEA, a valid one and application messages in one segment): in particular after a
+    failing first CEA the gate stays shut for good. -/
+theorem C10_client_first_cea_decides (R : Nat) (wd : Bool) (es : List HEv) (s : HS)
+    (h : (HS.init R Gen.capErrc Gen.ceaHandlerOnce wd).run es = some s) (hf : s.fired = true) (k : CEAKind) :
+    (∀ s', s.step (.cea k) = some s' → s' = s) ∧ (∀ s', s.step (.leftover k) = some s' → s' = s) := by
+  have hc : Gen.capErrc = 1 := by decide
+  have ho : Gen.ceaHandlerOnce = true := by decide
+  rw [hc, ho] at h
+  have inv := HInv_run es _ s (HInv_init R 1 wd (by omega)) h
+  have hh := handleCEA_once s k inv hf
+  constructor
+  · intro s' hs
+    simp only [HS.step] at hs
+    split at hs
+    · cases hs
+    · cases hs; exact hh
+  · intro s' hs
+    simp only [HS.step] at hs
+    split at hs
+    · cases hs; exact hh
+    · cases hs
+
+/-- ... and metadata is only ever stored by a success CEA: while none has been handled the gate
+    is shut -/
+theorem C10_client_gate_needs_success (R : Nat) (wd : Bool) (es : List HEv) (s : HS)
+    (h : (HS.init R Gen.capErrc Gen.ceaHandlerOnce wd).run es = some s) (hm : s.hasMeta = true) :
+    s.fired = true ∧ s.errcClosed = true := by
+  have hc : Gen.capErrc = 1 := by decide
+  have ho : Gen.ceaHandlerOnce = true := by decide
+  rw [hc, ho] at h
+  exact (HInv_run es _ s (HInv_init R 1 wd (by omega)) h).metaFired hm
 
 /-- regenerated facts: which registrations `sm.New` makes and which of them are gated -/
 theorem C10_gen : Gen.smNewRegs = [("\"CER\"", "handleCER(sm)"), ("\"DWR\"", "handshakeOK(handleDWR(sm))"),
